@@ -27,11 +27,4 @@ def endRow (b0 j : Nat) : Nat × Nat × Nat :=
    (match finishRbsp (srcAt b0 j) with | .ok _ => 1 | .error e => errCode e),
    (match finishSei (srcAt b0 j) with | .ok _ => 1 | .error e => errCode e))
 
-theorem bits_ue_model_eq_code : ∀ b0 : Fin 256, ∀ j : Fin 24,
-    ueRow b0.val j.val = (Generated.bitsUe.getD b0.val []).getD j.val (9, 9, 9) := by decide +kernel
-theorem bits_se_model_eq_code : ∀ b0 : Fin 256, ∀ j : Fin 24,
-    seRow b0.val j.val = (Generated.bitsSe.getD b0.val []).getD j.val (9, 9, 9) := by decide +kernel
-theorem bits_end_model_eq_code : ∀ b0 : Fin 256, ∀ j : Fin 24,
-    endRow b0.val j.val = (Generated.bitsEnd.getD b0.val []).getD j.val (9, 9, 9) := by decide +kernel
-
 end BitsProof
